@@ -95,6 +95,12 @@ class Gen:
         self.check = check
 
 
+def _new_mark():
+    """a fresh object id: containers created later have a larger id (used to tell per-iteration objects from shared ones)"""
+    from . import avals
+    return next(avals._ids)
+
+
 def list_joined(it, lv):
     """''.join(lv) for a list of strings / bytes whose contents are tracked as one descriptor, else None"""
     if not isinstance(lv, ListV):
@@ -150,7 +156,7 @@ class LoopMixin:
             if i == self.an.unroll:
                 self.event('loop-end-snap', st, snap=self._snap())
                 raise Abandon('unroll bound')
-            self.event('loop-iter', st, n=i, snap=self._snap())
+            self.event('loop-iter', st, n=i, snap=self._snap(), mark=_new_mark())
             try:
                 self.exec_block(st.body)
             except BreakSig:
@@ -543,7 +549,7 @@ class LoopMixin:
     def _while_inv(self, st):
         keys, gens = self._loop_head(st, st.body)
         if self.truth(self.eval(st.test)):
-            self.event('loop-iter', st, n='generic')
+            self.event('loop-iter', st, n='generic', mark=_new_mark())
             try:
                 self.exec_block(st.body)
             except BreakSig:
@@ -582,6 +588,11 @@ class LoopMixin:
     def iter_element(self, itv, node):
         """-> (generic element, length Lin|None) of an iterable abstract value."""
         itv = self.resolve(itv)
+        if getattr(itv, 'shared_iterator', False):
+            self.event('mutate-shared', node, target=itv, how='a module-level iterator is advanced')
+        if isinstance(itv, GenCallV):
+            # a generator consumed by something other than a for statement (join, sum, zip...): drained into a list first
+            itv = self.drain_generator(itv, node)
         if isinstance(itv, RangeV) and itv.step != 1:
             c = self.range_count(itv)
             k = self.fresh('k')
@@ -778,7 +789,7 @@ class LoopMixin:
             if ln is not None:
                 self.store.assume_ge0(ln - 1)
             self.assign(st.target, elem, st)
-            self.event('loop-iter', st, n='generic', elem=elem)
+            self.event('loop-iter', st, n='generic', elem=elem, mark=_new_mark())
             try:
                 self.exec_block(st.body)
             except BreakSig:
@@ -824,7 +835,7 @@ class LoopMixin:
                 self.store.assume_ge0(elem.lin - prev.lin - 1)
             prev = elem
             self.assign(st.target, elem, st)
-            self.event('loop-iter', st, n=i, elem=elem, snap=self._snap())
+            self.event('loop-iter', st, n=i, elem=elem, snap=self._snap(), mark=_new_mark())
             try:
                 self.exec_block(st.body)
             except BreakSig:
